@@ -1170,3 +1170,45 @@ VARIANTS.append(V('C01', 'solve: PEC block extracted into a helper', [
 n('C05', 'multigrid: recursion arguments through new temporaries', SOLVER,
   "            multigrid(cmodel, csfield, cefield, var, level=level+1,\n                      new_cycmax=cycmax-cyc)",
   "            nxt = level+1\n            rem = cycmax-cyc\n            multigrid(cmodel, csfield, cefield, var, level=nxt,\n                      new_cycmax=rem)")
+
+
+# ------------------------------------------------------------------- C16
+MUT16 = [
+ ('_stretch: ceil -> floor for the right share', "nr += int(np.ceil(remain/2))", "nr += int(np.floor(remain/2))", 'C16.G1.count'),
+ ('_stretch: origin one cell short', "edges_ext = [float(edges[0] - np.sum(shxl[:nl]))", "edges_ext = [float(edges[0] - np.sum(shxl[:nl-1]))", 'C16.G1.origin'),
+ ('_stretch: left extension from the last width', "shxl = widths[0] * sfactors", "shxl = widths[-1] * sfactors", 'C16.G1.centre'),
+ ('_stretch: only the lower end tested', "reached = extent[0] <= domain[0] and extent[1] >= domain[1]", "reached = extent[0] <= domain[0]", 'C16.G2.guard'),
+ ('_stretch: one cell too many accepted', "if reached and remain >= 0:", "if reached and remain >= -1:", 'C16.G2.guard'),
+ ('_stretch: factors array too short', "sfactors = stretching**np.arange(1, nx+1)", "sfactors = stretching**np.arange(1, nx-1)", 'C16.G1.count'),
+ ('_stretch: centre widths not counted', "remain = nx - widths.size - nl - nr", "remain = nx - nl - nr", 'C16.G'),
+ ('origin_and_widths: cell numbers shifted', "for nx in np.unique(cell_numbers):", "for nx in np.unique(cell_numbers)+1:", 'C16.G3.search'),
+ ('origin_and_widths: survey fill against the computation domain', "center_edges, center_widths, sa, nx, domain,", "center_edges, center_widths, sa, nx, comp_domain,", 'C16.G3.search'),
+ ('origin_and_widths: survey stretching up to stretching[1]', "for sa in np.linspace(1.0, stretching[0], nsa):", "for sa in np.linspace(1.0, stretching[1], nsa):", 'C16.G3.search'),
+ ('origin_and_widths: buffer without use_up', "sd_edges, sd_hx, ca, nx, comp_domain, use_up=True,", "sd_edges, sd_hx, ca, nx, comp_domain,", 'C16.G3.search'),
+ ('origin_and_widths: wrong sentinel', "                if remain is not False:", "                if remain is not None:", 'C16.G3.search'),
+ ('origin_and_widths: origin of the survey part', "                    x0 = cd_edges[0]", "                    x0 = sd_edges[0]", 'C16.G3.search'),
+ ('origin_and_widths: error only when verbose', "        if raise_error:\n            raise RuntimeError(msg)", "        if raise_error and verb > 5:\n            raise RuntimeError(msg)", 'C16.G4.failure'),
+ ('construct_mesh: z not checked for failure', "    if any([out is None for out in [x0, y0, z0]]):", "    if any([out is None for out in [x0, y0]]):", 'C16.G4.failure'),
+ ('origin_and_widths: half the buffer', "        dbuffer = np.min([wlength, np.ones(2)*max_buffer], axis=0)", "        dbuffer = np.min([wlength/2, np.ones(2)*max_buffer], axis=0)", 'C16.G5.domain'),
+ ('origin_and_widths: upper side with the lower buffer', "comp_domain = np.array([domain[0]-dbuffer[0], domain[1]+dbuffer[1]])", "comp_domain = np.array([domain[0]-dbuffer[0], domain[1]+dbuffer[0]])", 'C16.G5.domain'),
+ ('skin_depth: factor 2', "    skindepth = 1/np.sqrt(np.pi*abs(frequency)*conductivity*mu)", "    skindepth = 1/np.sqrt(2*np.pi*abs(frequency)*conductivity*mu)", 'C16.G5.formulas'),
+ ('wavelength: pi', "    return 2*np.pi*skin_depth", "    return np.pi*skin_depth", 'C16.G5.formulas'),
+ ('_seasurface: warning with 1 m tolerance', "    if not np.isclose(0.0, check):", "    if not np.isclose(0.0, check, atol=1.0):", 'C16.G6.seasurface'),
+ ('_seasurface: last vector width replaced', "                    widths = np.r_[widths, hx]", "                    widths = np.r_[widths[:-1], hx]", 'C16.G6.seasurface'),
+ ('_seasurface: 50 % extra stretching', "alphmax = 1.25*stretching[0]", "alphmax = 1.5*stretching[0]", 'C16.G6.seasurface'),
+ ('construct_mesh: z centre from y', "    zparams = {'center': center[2], 'seasurface': seasurface}", "    zparams = {'center': center[1], 'seasurface': seasurface}", 'C16.G7.routing'),
+ ('construct_mesh: y buffer properties swapped', "        yparams['properties'] = [properties[0], properties[3], properties[4]]", "        yparams['properties'] = [properties[0], properties[4], properties[3]]", 'C16.G7.routing'),
+ ('construct_mesh: hy and hz swapped', "    mesh = TensorMesh(h=[hx, hy, hz], origin=np.array([x0, y0, z0]))", "    mesh = TensorMesh(h=[hx, hz, hy], origin=np.array([x0, y0, z0]))", 'C16.G7.routing'),
+ ('good_mg_cell_nr: max_nr excluded', "    return numbers[numbers <= max_nr]", "    return numbers[numbers < max_nr]", 'C16.G8.numbers'),
+ ('origin_and_widths: centre not a node', "        vector = np.r_[center-dmin, center, center+dmin]", "        vector = np.r_[center-dmin, center+dmin/2, center+dmin]", 'C16.G8.centre'),
+ ('origin_and_widths: vector cut one node early', "            vector = vector[:vmax[1]]", "            vector = vector[:vmax[0]]", 'C16.G8.centre'),
+]
+for _nm, _o, _n, _r in MUT16:
+    m('C16', _nm, MESHES, _o, _n, _r)
+n('C16', '_stretch: locals renamed', MESHES,
+  "    remain = nx - widths.size - nl - nr\n", "    remain = nx - widths.size - nl - nr\n    rest = remain\n")
+n('C16', '_stretch: half shares through temporaries', MESHES,
+  "            nl += int(np.floor(remain/2))\n            nr += int(np.ceil(remain/2))\n",
+  "            half = remain/2\n            nl += int(np.floor(half))\n            nr += int(np.ceil(half))\n")
+n('C16', '_stretch: integer division for the left share', MESHES,
+  "            nl += int(np.floor(remain/2))\n", "            nl += remain // 2\n")
